@@ -436,6 +436,15 @@ func (w *World) runFault() {
 		w.finish()
 		return
 	}
+	// Half of the runs do not retry at once but carry on with other operations: state that is not
+	// directly observable (size thresholds, flags) must be what it was, or the heights the tree
+	// takes from here on stop being the canonical ones. (An immediate retry can heal such state.)
+	if (w.extra["fault_index"]+len(w.sc.Ops))%2 == 0 && !w.cfg.InMemory {
+		if w.latentCheck(tr, sigTail) {
+			w.finish()
+			return
+		}
+	}
 	// retry with the fault cleared: must succeed with the normal result
 	w.exec(op)
 	if w.st.Truncated != "" && w.viol == nil {
@@ -552,6 +561,80 @@ func (w *World) cursorUnderFault(op *Op, t *Tree, fp faultPoint) {
 			return
 		}
 	}
+}
+
+// latentCheck continues after a failed (and apparently harmless) operation with a few ordinary
+// operations and compares the tree's height with the height the size rule gives for its contents.
+func (w *World) latentCheck(t *Tree, sigTail string) bool {
+	w.st.Probes["latent-state-continuations"]++
+	refH := func() int {
+		maxL := 0
+		for _, e := range t.model.Entries() {
+			if l := w.layerOf(e.K); l > maxL {
+				maxL = l
+			}
+		}
+		return refHeight(t.model.Len(), w.cfg.BF, maxL)
+	}
+	check := func(after string) bool {
+		if int(t.m.Height()) != refH() {
+			w.fail("latent-state-changed/"+sigTail, "after the failed operation (tree apparently unchanged) and then %s, the tree has height %d where %d entries at branch factor %d give %d", after, t.m.Height(), t.model.Len(), w.cfg.BF, refH())
+			return true
+		}
+		return false
+	}
+	if check("nothing else") {
+		return true
+	}
+	// delete the smallest and the largest entry, insert the absent key of the highest layer
+	for step := 0; step < 4; step++ {
+		es := t.model.Entries()
+		var r callResult
+		what := ""
+		switch {
+		case step == 0 && len(es) > 0:
+			e := es[0]
+			what = "deleting the smallest entry"
+			r = guard(func() error { return t.m.Delete(ctx, w.kd.Key(e.K), w.vd.Val(e.V)) })
+			if !r.bad() {
+				t.model.Del(e.K)
+			}
+		case step == 1 && len(es) > 0:
+			e := es[len(es)-1]
+			what = "deleting the largest entry"
+			r = guard(func() error { return t.m.Delete(ctx, w.kd.Key(e.K), w.vd.Val(e.V)) })
+			if !r.bad() {
+				t.model.Del(e.K)
+			}
+		case step >= 2:
+			best, bk := -1, -1
+			for k := 0; k < w.cfg.U && k < 400; k++ {
+				if _, ok := t.model.Get(k); ok {
+					continue
+				}
+				if l := w.layerOf(k); l > best {
+					best, bk = l, k
+				}
+			}
+			if bk < 0 {
+				return false
+			}
+			what = "inserting an absent high-layer key"
+			r = guard(func() error { return t.m.Insert(ctx, w.kd.Key(bk), w.vd.Val(1)) })
+			if !r.bad() {
+				t.model.Put(bk, 1)
+			}
+		default:
+			continue
+		}
+		if r.bad() {
+			return false // an ordinary failure here is not this oracle's business
+		}
+		if check(what) {
+			return true
+		}
+	}
+	return false
 }
 
 func errSite(err error) string {
